@@ -3,6 +3,7 @@ package main
 // SMT-LIB generation and the solver portfolio.
 
 import (
+	"sync"
 	"bytes"
 	"context"
 	"fmt"
@@ -138,6 +139,11 @@ const prelude = `(declare-sort Str 0)
 (assert (forall ((d (Array Int Bool)) (n Int) (i Int)) (! (=> (dense1 d n) (= (select d i) (and (<= 1 i) (<= i n)))) :pattern ((dense1 d n) (select d i)))))
 (assert (forall ((d (Array Int Bool)) (n Int)) (! (=> (and (dense1 d n) (>= n 0)) (= (ilistN d) n)) :pattern ((dense1 d n)))))
 (assert (forall ((d (Array Int Bool)) (n Int) (j Int)) (! (=> (and (dense1 d n) (<= 0 j) (< j n)) (= (ilistKey d j) (+ j 1))) :pattern ((dense1 d n) (ilistKey d j)))))
+; idxOf(a, n, w): the least index below n at which the string array a holds w, -1 if there is none (a definable total
+; function: both axioms are its defining properties)
+(declare-fun idxOf ((Array Int Str) Int Str) Int)
+(assert (forall ((a (Array Int Str)) (n Int) (w Str)) (! (and (<= (- 1) (idxOf a n w)) (or (< (idxOf a n w) n) (= (idxOf a n w) (- 1))) (=> (>= (idxOf a n w) 0) (= (select a (idxOf a n w)) w))) :pattern ((idxOf a n w)))))
+(assert (forall ((a (Array Int Str)) (n Int) (w Str) (i Int)) (! (=> (and (<= 0 i) (< i n) (= (select a i) w)) (and (<= 0 (idxOf a n w)) (<= (idxOf a n w) i))) :pattern ((idxOf a n w) (select a i)))))
 ; dense0(d, N): d is exactly the set {0..N-1}; then the sorted listing is the identity (T-schemas)
 (declare-fun dense0 ((Array Int Bool) Int) Bool)
 (declare-fun dense0sk ((Array Int Bool) Int) Int)
@@ -151,7 +157,8 @@ var symRe = regexp.MustCompile(`\|[^|]*\|`)
 
 // buildQuery assembles the SMT-LIB text of one obligation, pruning declarations to the symbols that occur.
 func (V *Verifier) buildQuery(o *Oblig, sums map[string]*SumFn, negate bool, level int) string {
-	ground := level >= 10 // level 1x: lemma level x on the ground part of the assumptions
+	ground := level >= 10 && level < 20 // level 1x: lemma level x on the ground part of the assumptions
+	focusMode := level >= 20              // level 2x: lemma level x, unfoldings and lemma instances only for the sums of the goal
 	level = level % 10
 	var body strings.Builder
 	for _, p := range o.PC {
@@ -174,6 +181,7 @@ func (V *Verifier) buildQuery(o *Oblig, sums map[string]*SumFn, negate bool, lev
 		body.WriteString("(assert " + p + ")\n")
 	}
 	var skDecls []string
+	focusStart := body.Len()
 	if negate {
 		g := o.Goal
 		if e, err := parseSx(g); err == nil {
@@ -198,12 +206,27 @@ func (V *Verifier) buildQuery(o *Oblig, sums map[string]*SumFn, negate bool, lev
 		}
 	}
 	text := body.String()
+	focus := ""
+	if focusMode {
+		focus = text[focusStart:]
+	}
 	// unfold recursive sums one step at the applications that occur in the query; applications introduced by an
 	// unfolding are unfolded in a second round only if they belong to another function (nested sums), so that the
 	// predecessor chain F(n-1), F(n-2), ... is not followed
 	var unfold []string
 	seenU := map[string]bool{}
 	scan := text
+	if focusMode {
+		// unfold the sums of the goal and of the quantifier-free assumptions (hint terms of invariants)
+		var sb strings.Builder
+		sb.WriteString(focus)
+		for _, ln := range strings.Split(text[:focusStart], "\n") {
+			if !strings.Contains(ln, "(forall ") && !strings.Contains(ln, "(exists ") {
+				sb.WriteString(ln + "\n")
+			}
+		}
+		scan = sb.String()
+	}
 	for round := 0; round < 2; round++ {
 		var added []string
 		for _, k := range sortedSumKeys(sums) {
@@ -218,13 +241,24 @@ func (V *Verifier) buildQuery(o *Oblig, sums map[string]*SumFn, negate bool, lev
 				}
 				seenU[key] = true
 				n := args[len(args)-1]
-				lo, bodyAt := sf.inst(args[:len(args)-1], "(- "+n+" 1)")
+				if lo0, _ := sf.inst(args[:len(args)-1], "0"); lo0 == n {
+					// empty range: the sum is zero and there is no predecessor to unfold to
+					unfold = append(unfold, fmt.Sprintf("(assert (= %s 0))", sApp(sf.Name, args...)))
+					continue
+				}
+				pred := "(- " + n + " 1)"
+				if strings.HasPrefix(n, "(+ ") && strings.HasSuffix(n, " 1)") {
+					if e, err := parseSx(n); err == nil && len(e.kids) == 3 {
+						pred = e.kids[1].String() // (x+1)-1 = x: keeps the index terms of the predecessor canonical
+					}
+				}
+				lo, bodyAt := sf.inst(args[:len(args)-1], pred)
 				app := func(last string) string {
 					return sApp(sf.Name, append(append([]string{}, args[:len(args)-1]...), last)...)
 				}
-				seenU[sf.Name+" "+strings.Join(append(append([]string{}, args[:len(args)-1]...), "(- "+n+" 1)"), " ")] = true
+				seenU[sf.Name+" "+strings.Join(append(append([]string{}, args[:len(args)-1]...), pred), " ")] = true
 				unfold = append(unfold, fmt.Sprintf("(assert (=> (<= %s %s) (= %s 0)))", n, lo, app(n)))
-				unfold = append(unfold, fmt.Sprintf("(assert (=> (> %s %s) (= %s (+ %s %s))))", n, lo, app(n), app("(- "+n+" 1)"), bodyAt))
+				unfold = append(unfold, fmt.Sprintf("(assert (=> (> %s %s) (= %s (+ %s %s))))", n, lo, app(n), app(pred), bodyAt))
 				added = append(added, bodyAt)
 			}
 		}
@@ -233,7 +267,10 @@ func (V *Verifier) buildQuery(o *Oblig, sums map[string]*SumFn, negate bool, lev
 		}
 		scan = strings.Join(added, "\n")
 	}
-	unfold = append(unfold, sumRelationLemmas(text+strings.Join(unfold, "\n"), sums, level)...)
+	unfold = append(unfold, sumRelationLemmas(text+strings.Join(unfold, "\n"), sums, level, focus)...)
+	if level >= 2 {
+		unfold = append(unfold, divSignInstances(text+strings.Join(unfold, "\n"))...)
+	}
 	if level >= 3 {
 		unfold = append(unfold, distributivityInstances(text+strings.Join(unfold, "\n"))...)
 	}
@@ -354,6 +391,10 @@ func (V *Verifier) solverConfigs() []solverCfg {
 		z("z3-new+mono", 2, ""),
 		z("z3-new+lemmas", 3, ""),
 		c("cvc5+lemmas", 3),
+		z("z3-new/goal+mono", 22, ""),
+		c("cvc5/goal+mono", 22),
+		z("z3-new/goal+lemmas", 23, ""),
+		c("cvc5/goal+lemmas", 23),
 		z("z3-new/ground", 10, ""),
 		z("z3-new/ground+mono", 12, ""),
 		z("z3-new/ground+lemmas", 13, ""),
@@ -392,7 +433,7 @@ func (V *Verifier) discharge(o *Oblig, sums map[string]*SumFn, dir string) {
 		if c.Level%10 >= 1 && len(sums) == 0 && c.Level < 10 {
 			continue // no sums: the lemma levels add nothing
 		}
-		if c.Level >= 10 && !hasQuant {
+		if c.Level >= 10 && c.Level < 20 && !hasQuant {
 			continue
 		}
 		if c.Level >= 10 && len(sums) == 0 && c.Level != 10 {
@@ -514,6 +555,11 @@ func (V *Verifier) discharge(o *Oblig, sums map[string]*SumFn, dir string) {
 		if V.keepQueries != "" && hasQuant {
 			os.WriteFile(filepath.Join(kd, sanitize(o.Name)+".ground.smt2"), []byte(query(13)), 0o644)
 		}
+		if V.keepQueries != "" && !o.ok() {
+			os.WriteFile(filepath.Join(kd, sanitize(o.Name)+".lemmas.smt2"), []byte(query(3)), 0o644)
+			os.WriteFile(filepath.Join(kd, sanitize(o.Name)+".goal.smt2"), []byte(query(23)), 0o644)
+			os.WriteFile(filepath.Join(kd, sanitize(o.Name)+".goalmono.smt2"), []byte(query(22)), 0o644)
+		}
 	}
 }
 
@@ -562,7 +608,12 @@ func hasBoundArg(args []string) bool {
 //   UPD(n,k): lo <= k < n and (forall i in [lo,n), i != k: body(a,i) = body(b,i))  =>  F(a,n) = F(b,n) + body(a,k) - body(b,k)
 // for the candidate positions k derived from the indices of array stores occurring in the arguments. The inner
 // universal is in an antecedent, so each instance is quantifier-free after skolemisation.
-func sumRelationLemmas(text string, sums map[string]*SumFn, level int) []string {
+func sumRelationLemmas(text string, sums map[string]*SumFn, level int, focus string) []string {
+	// focus != "": single-application lemmas only for applications occurring in the focus text (the goal and the
+	// instances made for its skolem constants), pair lemmas only for pairs with at least one member in it
+	inFocus := func(fn string, a []string) bool {
+		return focus == "" || strings.Contains(focus, sApp(fn, a...))
+	}
 	var names []string
 	for k := range sums {
 		names = append(names, k)
@@ -570,6 +621,24 @@ func sumRelationLemmas(text string, sums map[string]*SumFn, level int) []string 
 	sort.Strings(names)
 	var out []string
 	nsk := 0
+	// ground idxOf(...) terms: positions of keys in duplicate-free lists, candidates for single-position updates
+	var idxOfTerms []string
+	{
+		seen := map[string]bool{}
+		for _, a := range sexpArgs(text, "idxOf") {
+			if len(a) == 3 && !hasBoundArg(a) {
+				t := sApp("idxOf", a...)
+				if !seen[t] {
+					seen[t] = true
+					idxOfTerms = append(idxOfTerms, t)
+				}
+			}
+		}
+		sort.Strings(idxOfTerms)
+		if len(idxOfTerms) > 4 {
+			idxOfTerms = idxOfTerms[:4]
+		}
+	}
 	for _, k := range names {
 		sf := sums[k]
 		var apps [][]string
@@ -585,27 +654,49 @@ func sumRelationLemmas(text string, sums map[string]*SumFn, level int) []string 
 		for i := 0; i < len(apps) && level >= 2; i++ {
 			pa, n := apps[i][:len(apps[i])-1], apps[i][len(apps[i])-1]
 			lo, _ := sf.inst(pa, "0")
+			fi := inFocus(sf.Name, apps[i])
+			if !fi {
+				// not in the focus: only the pair lemmas with a focus member below
+				for j := 0; j < len(apps); j++ {
+					if inFocus(sf.Name, apps[j]) {
+						fi = true
+						break
+					}
+				}
+				if !fi {
+					continue
+				}
+			}
 			nsk++
-			sk := fmt.Sprintf("sumsk_%d", nsk)
+			sk := fmt.Sprintf("sumsk!%d", nsk)
 			_, bsk := sf.inst(pa, sk)
 			out = append(out, fmt.Sprintf("(declare-const %s Int)", sk))
 			out = append(out, fmt.Sprintf("(assert (=> (=> (and (<= %s %s) (< %s %s)) (>= %s 0)) (>= %s 0)))", lo, sk, sk, n, bsk, sApp(sf.Name, apps[i]...)))
+			// ALLZERO: a sum of zeros is zero
+			nsk++
+			skz := fmt.Sprintf("sumsk!%d", nsk)
+			_, bz := sf.inst(pa, skz)
+			out = append(out, fmt.Sprintf("(declare-const %s Int)", skz))
+			out = append(out, fmt.Sprintf("(assert (=> (=> (and (<= %s %s) (< %s %s)) (= %s 0)) (= %s 0)))", lo, skz, skz, n, bz, sApp(sf.Name, apps[i]...)))
 			for j := 0; j < len(apps); j++ {
 				if i == j || strings.Join(pa, " ") != strings.Join(apps[j][:len(apps[j])-1], " ") {
 					continue
 				}
-				if strings.ContainsAny(n, "( ") {
-					continue // only towards a whole-range bound (a plain symbol such as a slice length): keeps the instances few
+				if !inFocus(sf.Name, apps[i]) && !inFocus(sf.Name, apps[j]) {
+					continue
+				}
+				if strings.HasPrefix(n, "(+ ") || strings.HasPrefix(n, "(- ") || strings.HasPrefix(n, "(* ") || strings.HasPrefix(n, "(ite ") {
+					continue // only towards a whole-range bound (a slice length, not an index expression): keeps the instances few
 				}
 				m := apps[j][len(apps[j])-1]
 				nsk++
-				sk2 := fmt.Sprintf("sumsk_%d", nsk)
+				sk2 := fmt.Sprintf("sumsk!%d", nsk)
 				_, b2 := sf.inst(pa, sk2)
 				out = append(out, fmt.Sprintf("(declare-const %s Int)", sk2))
 				out = append(out, fmt.Sprintf("(assert (=> (and (<= %s %s) (=> (and (<= %s %s) (< %s %s)) (>= %s 0))) (<= %s %s)))", m, n, lo, sk2, sk2, n, b2, sApp(sf.Name, apps[j]...), sApp(sf.Name, apps[i]...)))
 				// TAILZERO: if every term on [m,n) is zero the two partial sums are equal
 				nsk++
-				sk3 := fmt.Sprintf("sumsk_%d", nsk)
+				sk3 := fmt.Sprintf("sumsk!%d", nsk)
 				_, b3 := sf.inst(pa, sk3)
 				out = append(out, fmt.Sprintf("(declare-const %s Int)", sk3))
 				out = append(out, fmt.Sprintf("(assert (=> (and (<= %s %s) (<= %s %s) (=> (and (<= %s %s) (< %s %s)) (= %s 0))) (= %s %s)))", lo, m, m, n, m, sk3, sk3, n, b3, sApp(sf.Name, apps[j]...), sApp(sf.Name, apps[i]...)))
@@ -617,6 +708,9 @@ func sumRelationLemmas(text string, sums map[string]*SumFn, level int) []string 
 				if strings.Join(pa, " ") == strings.Join(pb, " ") {
 					continue // same parameters: related by unfolding and monotonicity only
 				}
+				if !inFocus(sf.Name, apps[i]) && !inFocus(sf.Name, apps[j]) {
+					continue
+				}
 				loA, _ := sf.inst(pa, "0")
 				loB, _ := sf.inst(pb, "0")
 				if loA != loB {
@@ -625,9 +719,15 @@ func sumRelationLemmas(text string, sums map[string]*SumFn, level int) []string 
 				cands := map[string]bool{}
 				for _, arg := range append(append([]string{}, pa...), pb...) {
 					for _, st := range sexpArgs(arg, "store") {
-						if len(st) == 3 {
+						if len(st) == 3 && isIntTerm(st[1], text) {
 							cands[st[1]] = true
 						}
+					}
+				}
+				for _, io := range idxOfTerms {
+					// the position of a key in a list is a candidate only for sums that range over that list
+					if la := sexpArgs(io, "idxOf"); len(la) > 0 && (la[0][1] == apps[i][len(apps[i])-1] || la[0][1] == apps[j][len(apps[j])-1]) {
+						cands[io] = true
 					}
 				}
 				var cs []string
@@ -644,7 +744,7 @@ func sumRelationLemmas(text string, sums map[string]*SumFn, level int) []string 
 					FA := sApp(sf.Name, append(append([]string{}, pa...), n)...)
 					FB := sApp(sf.Name, append(append([]string{}, pb...), n)...)
 					nsk++
-					sk := fmt.Sprintf("sumsk_%d", nsk)
+					sk := fmt.Sprintf("sumsk!%d", nsk)
 					_, bA := sf.inst(pa, sk)
 					_, bB := sf.inst(pb, sk)
 					out = append(out, fmt.Sprintf("(declare-const %s Int)", sk))
@@ -652,7 +752,7 @@ func sumRelationLemmas(text string, sums map[string]*SumFn, level int) []string 
 					for _, kIdx := range cs {
 						for _, pos := range []string{kIdx, "(- " + kIdx + " 1)"} {
 							nsk++
-							sk2 := fmt.Sprintf("sumsk_%d", nsk)
+							sk2 := fmt.Sprintf("sumsk!%d", nsk)
 							_, bA2 := sf.inst(pa, sk2)
 							_, bB2 := sf.inst(pb, sk2)
 							_, bAp := sf.inst(pa, pos)
@@ -689,26 +789,85 @@ func sumRelationLemmas(text string, sums map[string]*SumFn, level int) []string 
 				if A.sf == B.sf {
 					continue
 				}
+				if !inFocus(A.sf.Name, A.args) && !inFocus(B.sf.Name, B.args) {
+					continue
+				}
 				pa, pb := A.args[:len(A.args)-1], B.args[:len(B.args)-1]
 				loA, _ := A.sf.inst(pa, "0")
 				loB, _ := B.sf.inst(pb, "0")
 				if loA != loB {
 					continue
 				}
-				ns := []string{A.args[len(A.args)-1]}
 				if A.args[len(A.args)-1] != B.args[len(B.args)-1] {
-					ns = append(ns, B.args[len(B.args)-1])
+					continue // sums over different ranges are not related pointwise
 				}
+				ns := []string{A.args[len(A.args)-1]}
 				for _, n := range ns {
 					nsk++
-					sk := fmt.Sprintf("sumsk_%d", nsk)
+					sk := fmt.Sprintf("sumsk!%d", nsk)
 					_, bA := A.sf.inst(pa, sk)
 					_, bB := B.sf.inst(pb, sk)
 					FA := sApp(A.sf.Name, append(append([]string{}, pa...), n)...)
 					FB := sApp(B.sf.Name, append(append([]string{}, pb...), n)...)
 					out = append(out, fmt.Sprintf("(declare-const %s Int)", sk))
 					out = append(out, fmt.Sprintf("(assert (=> (=> (and (<= %s %s) (< %s %s)) (= %s %s)) (= %s %s)))", loA, sk, sk, n, bA, bB, FA, FB))
+					// PW / PWU: pointwise <= gives <= of the sums; with one excepted position the inequality holds for
+					// the sums without that position's terms (both directions)
+					for dir := 0; dir < 2; dir++ {
+						X, Y, pX, pY, FX, FY := A, B, pa, pb, FA, FB
+						if dir == 1 {
+							X, Y, pX, pY, FX, FY = B, A, pb, pa, FB, FA
+						}
+						nsk++
+						skp := fmt.Sprintf("sumsk!%d", nsk)
+						_, bX := X.sf.inst(pX, skp)
+						_, bY := Y.sf.inst(pY, skp)
+						out = append(out, fmt.Sprintf("(declare-const %s Int)", skp))
+						out = append(out, fmt.Sprintf("(assert (=> (=> (and (<= %s %s) (< %s %s)) (<= %s %s)) (<= %s %s)))", loA, skp, skp, n, bX, bY, FX, FY))
+						for _, pos := range idxOfTerms {
+							if la := sexpArgs(pos, "idxOf"); len(la) == 0 || la[0][1] != n {
+								continue
+							}
+							nsk++
+							sku := fmt.Sprintf("sumsk!%d", nsk)
+							_, bXu := X.sf.inst(pX, sku)
+							_, bYu := Y.sf.inst(pY, sku)
+							_, bXp := X.sf.inst(pX, pos)
+							_, bYp := Y.sf.inst(pY, pos)
+							out = append(out, fmt.Sprintf("(declare-const %s Int)", sku))
+							out = append(out, fmt.Sprintf("(assert (=> (and (<= %s %s) (< %s %s) (=> (and (<= %s %s) (< %s %s) (not (= %s %s))) (<= %s %s))) (<= (- %s %s) (- %s %s))))",
+								loA, pos, pos, n, loA, sku, sku, n, sku, pos, bXu, bYu, FX, bXp, FY, bYp))
+						}
+					}
 				}
+			}
+		}
+	}
+	// second round: sum applications that occur only inside the lemma instances above (an inner sum at a lemma's own
+	// skolem index) get their NONNEG instance, so that "every term is non-negative" can be established for nested sums
+	if level >= 2 {
+		lemText := strings.Join(out, "\n")
+		for _, k := range names {
+			sf := sums[k]
+			seen := map[string]bool{}
+			for _, a := range sexpArgs(text, sf.Name) {
+				seen[strings.Join(a, " ")] = true
+			}
+			cnt := 0
+			for _, a := range sexpArgs(lemText, sf.Name) {
+				key := strings.Join(a, " ")
+				if len(a) != len(sf.PSorts)+1 || hasBoundArg(a) || seen[key] || cnt >= 24 {
+					continue
+				}
+				seen[key] = true
+				cnt++
+				pa, n := a[:len(a)-1], a[len(a)-1]
+				lo, _ := sf.inst(pa, "0")
+				nsk++
+				sk := fmt.Sprintf("sumsk!%d", nsk)
+				_, bsk := sf.inst(pa, sk)
+				out = append(out, fmt.Sprintf("(declare-const %s Int)", sk))
+				out = append(out, fmt.Sprintf("(assert (=> (=> (and (<= %s %s) (< %s %s)) (>= %s 0)) (>= %s 0)))", lo, sk, sk, n, bsk, sApp(sf.Name, a...)))
 			}
 		}
 	}
@@ -885,6 +1044,68 @@ func distributivityInstances(text string) []string {
 		if e, err := parseSx(line); err == nil {
 			visit(e)
 		}
+	}
+	return out
+}
+
+
+// isIntTerm: the term has sort Int according to the declarations in the query text (positions of a sum range over Int).
+func isIntTerm(t, text string) bool {
+	e, err := parseSx(t)
+	if err != nil {
+		return false
+	}
+	so, err := sortOfSx(e, func(name string) (string, bool) { return declaredSort(name, text) })
+	return err == nil && so == "Int"
+}
+
+var declCache = struct {
+	sync.Mutex
+	text string
+	m    map[string]string
+}{}
+
+// declaredSort looks a symbol up in the (declare-const ...) / (declare-fun ...) lines of a query.
+func declaredSort(name, text string) (string, bool) {
+	declCache.Lock()
+	defer declCache.Unlock()
+	if declCache.text != text {
+		m := map[string]string{}
+		for _, ln := range strings.Split(text, "\n") {
+			if !strings.HasPrefix(ln, "(declare-") {
+				continue
+			}
+			e, err := parseSx(ln)
+			if err != nil || len(e.kids) < 3 {
+				continue
+			}
+			m[e.kids[1].String()] = e.kids[len(e.kids)-1].String()
+		}
+		declCache.text, declCache.m = text, m
+	}
+	so, ok := declCache.m[name]
+	return so, ok
+}
+
+
+// divSignInstances: for every ground quotient (div A B) occurring in the query with a symbolic divisor, the valid fact
+// A >= 0 and B > 0 ==> 0 <= (div A B) <= A (the solvers' non-linear engines do not always find the sign in time).
+func divSignInstances(text string) []string {
+	seen := map[string]bool{}
+	var out []string
+	for _, a := range sexpArgs(text, "div") {
+		if len(a) != 2 || hasBoundArg(a) || len(out) >= 40 {
+			continue
+		}
+		if _, lit := smallLit(a[1]); lit || a[1] == "S" {
+			continue
+		}
+		key := a[0] + " " + a[1]
+		if seen[key] {
+			continue
+		}
+		seen[key] = true
+		out = append(out, fmt.Sprintf("(assert (=> (and (>= %s 0) (> %s 0)) (and (>= (div %s %s) 0) (<= (div %s %s) %s))))", a[0], a[1], a[0], a[1], a[0], a[1], a[0]))
 	}
 	return out
 }
